@@ -550,3 +550,12 @@ def main(tier, seed):
     run.assume("`backend can deliver` is decided by CoolProp's high-level PropsSI interface for the same fluid and temperature, independently of pyGAPS")
     run.assume("temperatures below the triple point are outside the property's quantifier (CoolProp extrapolates there without raising)")
     return run.finish()
+
+
+def replay(path):
+    """./check C20 --replay <file>: show the recorded violation and re-run the check at the recorded
+    tier and seed (scenario spaces are enumerated deterministically, so the case is visited again)."""
+    with open(path) as f:
+        rec = json.load(f)
+    print("replaying", json.dumps(rec.get("sig"), sort_keys=True))
+    return main(rec.get("tier", "quick"), int(rec.get("seed", 0)))
